@@ -64,3 +64,11 @@ Theorem C13_tag_api : forall n o s s1 c pre name post,
   Ok ($"<p>" ++ ((c :: pre) ++ htmlSafeModeFilter (ienv_of s1) (60 :: name ++ [62]) ++ post) ++ $"</p>", s1).
 Proof. exact tag_api. Qed.
 Print Assumptions C13_tag_api.
+
+Example C13_ex_hypotheses : name_ok2 $"b" /\ name_ok2 $"span" /\ RegexAnalysis.over word_alphabet $"some ".
+Proof.
+  split; [|split].
+  - eexists _, _. split; [reflexivity|]. split; [reflexivity|]. split; [intros x []|split; discriminate].
+  - eexists _, _. split; [reflexivity|]. split; [reflexivity|]. split; [intros x Hx; vm_compute in Hx; intuition; subst; reflexivity|split; discriminate].
+  - intros x Hx. vm_compute in Hx. vm_compute. intuition.
+Qed.
